@@ -129,7 +129,17 @@ Definition on_request (s : sstate) (f : sframe) (o : nat) (q : req) : sstate * s
   if q_mid q <=? MSG_ID_SPECIAL then
     if q_mid q =? MSG_ID_OOB then (s, f, [SOOobUp (q_pay q)], PrTrue)
     else if q_mid q =? MSG_ID_CLOSE then
-      (with_clients (del_client (q_cid q) (q_uid q) (clients s)) s, f, [], PrTrue)
+      (* a required output that leaves takes the "everybody has asked" decision with it (repair of the pinned code, which left
+         do_send as it was: the frame that client had asked for went out to the others without it) *)
+      let cl := del_client (q_cid q) (q_uid q) (clients s) in
+      let gone := has_client (q_cid q) (q_uid q) (clients s) && existsb (Z.eqb (q_cid q)) (s_required s) &&
+                  negb (existsb (fun c => c_cid c =? q_cid q) cl) in
+      (with_clients cl s,
+       {| sf_msg_id := sf_msg_id f; sf_balanced := sf_balanced f; sf_push := sf_push f; sf_lazy := sf_lazy f;
+          sf_topicmsgs := sf_topicmsgs f; sf_evaluated := sf_evaluated f; sf_do_send := sf_do_send f && negb gone;
+          sf_do_hello := sf_do_hello f; sf_outputs := sf_outputs f; sf_timeout := sf_timeout f;
+          sf_deadline := sf_deadline f; sf_drain := sf_drain f; sf_ret := sf_ret f; sf_ptimeout := sf_ptimeout f |},
+       [], PrTrue)
     else (s, f, [], PrTrue)
   else if negb (has_client (q_cid q) (q_uid q) (clients s)) && s_handshake s && q_new q then
     (s, {| sf_msg_id := sf_msg_id f; sf_balanced := sf_balanced f; sf_push := sf_push f; sf_lazy := sf_lazy f;
@@ -145,8 +155,10 @@ Definition on_request (s : sstate) (f : sframe) (o : nat) (q : req) : sstate * s
       (with_min (q_mid q + 1) (with_clients cl s), f, [], PrNone)
     else
       let t_min := t - CONN_TIMEOUT in
-      let ds0 := forallb (fun r => existsb (fun c => c_cid c =? r) cl) (s_required s) in
-      let '(cl', ds1, outs) := scan (s_balance s) t_min cl cl ds0 [] in
+      (* the required outputs are looked up in the table AS PRUNED by the scan: an output that has just timed out is not
+         connected (repair 0e63164; the pinned code looked them up before the scan and let one frame through) *)
+      let '(cl', ds0, outs) := scan (s_balance s) t_min cl cl true [] in
+      let ds1 := ds0 && forallb (fun r => existsb (fun c => c_cid c =? r) cl') (s_required s) in
       let ds2 := if s_balance s && forallb (fun ox => negb (out_ok (snd ox))) outs then false else ds1 in
       (with_clients cl' s,
        {| sf_msg_id := sf_msg_id f; sf_balanced := sf_balanced f; sf_push := sf_push f; sf_lazy := sf_lazy f;
